@@ -410,6 +410,30 @@ func genPgsql(r *vk.Run, budget int) {
 	// (text: allocated twice), the same in binary format
 	casePgMsg(r, 'B', []byte{0, 0, 0, 0, 0, 1, 2, 0, 0, 0, 7}, "bind-witness")
 	casePgMsg(r, 'B', []byte{0, 0, 0, 1, 0, 1, 0, 1, 2, 0, 0, 0, 7}, "bind-witness")
+	// the limits themselves, with pgmeta.MaxMsgSize (a variable) lowered so that messages of a few
+	// bytes sit exactly on it: total parameter length = limit - 1, limit, limit + 1; payload length
+	// of a frame likewise
+	{
+		saved := pgmeta.MaxMsgSize
+		two := &pgBuilder{}
+		two.str("p", true)
+		two.str("s", true)
+		two.i16(0)
+		two.i16(2)
+		two.i32(3)
+		two.raw([]byte{1, 2, 3})
+		two.i32(3)
+		two.raw([]byte{4, 5, 6})
+		two.i16(0)
+		pay := []byte("select 1\x00")
+		fr := append(append([]byte{'Q'}, i32(4+len(pay))...), pay...)
+		for _, mx := range []int{0, 2, 3, 5, 6, 7, len(pay) - 1, len(pay), len(pay) + 1} {
+			pgmeta.MaxMsgSize = mx
+			casePgMsg(r, 'B', two.b, "limit")
+			casePgFrame(r, fr, "limit")
+		}
+		pgmeta.MaxMsgSize = saved
+	}
 	// Parse, Execute
 	for k := 0; k < 3; k++ {
 		pb := validParse(r.Rng)
